@@ -11,7 +11,7 @@ import (
 
 var (
 	c03Cmp   = []string{config.NoneKey, config.CompressionFormatGZipKey, config.CompressionFormatZStandardKey}
-	c03Enc   = []string{config.NoneKey, config.EncryptionFormatAgeKey}
+	c03Enc   = []string{config.NoneKey, config.EncryptionFormatAgeKey, config.EncryptionFormatPGPKey}
 	c03Sig   = []string{config.NoneKey, config.SignatureFormatMinisignKey}
 	c03Names = []string{"/f", "/x.gz", "/y.zst.age"}
 )
@@ -28,6 +28,12 @@ func (s *c03Sink) Close() error                { s.closed = true; return nil }
 // bytes, what is written through the filesystem is read back byte for byte through File.Read and through
 // Operations.Restore, and the reported size is the content length.
 func Harness_C03_content_round_trip() {
+	if vm.Tier() == "thorough" {
+		// every compression format STFS offers, and OpenPGP encryption as well
+		c03Cmp = []string{config.NoneKey, config.CompressionFormatGZipKey, config.CompressionFormatZStandardKey,
+			config.CompressionFormatParallelGZipKey, config.CompressionFormatLZ4Key, config.CompressionFormatBrotliKey,
+			config.CompressionFormatBzip2Key, config.CompressionFormatBzip2ParallelKey}
+	}
 	pipes := config.PipeConfig{
 		Compression: c03Cmp[vm.Choice("compression", len(c03Cmp))],
 		Encryption:  c03Enc[vm.Choice("encryption", len(c03Enc))],
@@ -42,10 +48,16 @@ func Harness_C03_content_round_trip() {
 		return
 	}
 	name := c03Names[vm.Choice("name", len(c03Names))]
-	l := vm.Concretize(vm.Int("len", 0, 3))
+	// 0..3 symbolic bytes, or 100 bytes (more than one copy chunk, so that encoders whose output depends on
+	// how their input is chunked see the same chunking in the size pass and in the write pass)
+	l := []int{0, 1, 2, 3, 100}[vm.Choice("len", 5)]
 	content := make([]byte, l)
 	for i := range content {
-		content[i] = vm.Byte("b", "uvw")
+		if i < 3 {
+			content[i] = vm.Byte("b", "uvw")
+		} else {
+			content[i] = byte('a' + i%23)
+		}
 	}
 	vm.Known("C03-empty-file-unreadable-under-gzip", l == 0 && pipes.Compression == config.CompressionFormatGZipKey)
 	vm.Known("C03-name-ending-in-codec-suffix", name != "/f" && (pipes.Compression != config.NoneKey || pipes.Encryption != config.NoneKey))
